@@ -1053,7 +1053,11 @@ func (fc *fileCtx) wrapAccess(e ast.Expr, write bool) ast.Expr {
 		name, kind = "WP", "wr"
 	}
 	st.sites["mem"+kind]++
-	p := fc.fset.Position(e.Pos())
+	pos := e.Pos()
+	if se, ok := e.(*ast.SelectorExpr); ok {
+		pos = se.Sel.Pos() // the base may have been replaced by a node without position
+	}
+	p := fc.fset.Position(pos)
 	site := &ast.BasicLit{Kind: token.STRING, Value: strconv.Quote(fmt.Sprintf("%s:%d:%s@%s", filepath.Base(p.Filename), p.Line, kind, fc.fn))}
 	return &ast.ParenExpr{X: &ast.StarExpr{X: fc.rt(name, &ast.UnaryExpr{Op: token.AND, X: e}, site)}}
 }
